@@ -184,7 +184,7 @@ class Driver:
             cur.t_srv = self.sim.loop.now
 
     async def request(self, ctx, code, path, query=(), payload=b"", content_format=None, accept=None,
-                      extra_opts=None, timeout=400.0, host="fd00::1"):
+                      extra_opts=None, timeout=400.0, host="fd00::1", handle_blockwise=True):
         """Returns (trace, response|None, error|None)."""
         import asyncio
         from aiocoap import Message
@@ -202,7 +202,7 @@ class Driver:
         if extra_opts:
             extra_opts(msg)
         resp = err = None
-        req = ctx.request(msg)
+        req = ctx.request(msg, handle_blockwise=handle_blockwise)
         try:
             resp = await asyncio.wait_for(req.response, timeout)
         except asyncio.CancelledError:
